@@ -300,6 +300,134 @@ def flat_form(rng, big=False):
     return form
 
 
+ATTR_COLS = ["body::ref", "body::nodeset", "bind::nodeset", "action::ref", "control::ref", "control::nodeset"]
+ATTR_MSG = __import__("re").compile(r"Invalid (bind|body|action) attribute for '([^']*)': '([^']*)' is set by pyxform\.")
+
+
+def attr_form(rng, big=False):
+    """A flat-group sheet (`flat_form`) whose questions, groups (flat and not) and repeats carry user-supplied
+    `body::ref` / `body::nodeset` / `bind::nodeset` / `action::ref` cells, plus (sometimes) a question whose type has
+    an action (`background-audio`, `start-geopoint`)."""
+    form = flat_form(rng, big=big)
+    rows = form["survey"]
+    if rng.random() < 0.3:
+        rows.insert(rng.randint(0, len(rows)) if rng.random() < 0.3 else 0,
+                    {"type": rng.choice(["background-audio", "start-geopoint"]), "name": "act1"})
+    cands = [r for r in rows if not r["type"].startswith("end")]
+    # one spelling of the body columns per sheet (both spellings of one column on a sheet is a header error)
+    spell = rng.choice(["body::", "body::", "control::"])
+    all_cols = [c for c in ATTR_COLS if c.startswith(spell) or not c.startswith(("body::", "control::"))]
+    for r in rng.sample(cands, min(len(cands), rng.choice([1, 1, 1, 2, 3]))):
+        kind = "section" if r["type"].startswith("begin") else ("action" if r["name"] == "act1" else "question")
+        cols = [c for c in all_cols if not (c == "action::ref" and kind == "question")]
+        if kind == "action" and rng.random() < 0.6:
+            cols = ["action::ref"]
+        if kind == "section" and "flat" in r and rng.random() < 0.5:
+            cols = ["bind::nodeset", spell + "ref"]
+        if rng.random() < 0.55:
+            # a placement that the code ignores or passes through (the sheet stays convertible)
+            if kind == "section" and "repeat" in r["type"]:
+                cols = ["action::ref"]
+            elif kind == "section" and "flat" not in r:
+                cols = [spell + "ref", spell + "nodeset", "action::ref"]
+            elif kind == "question":
+                cols = [spell + "nodeset"]
+        for col in rng.sample(cols, min(len(cols), rng.choice([1, 1, 2]))):
+            if col.replace("control::", "body::") in {c.replace("control::", "body::") for c in r}:
+                continue
+            r[col] = rng.choice(["/data/zzz", "zzz", "/data/" + r["name"], "."])
+    return form
+
+
+def attr_case(ctx, form):
+    """Correspondence of `Pyxv.FormAttrs.formOutAttrs` (op `attrs.model`; theorems `attrs_refs_resolve`,
+    `attrs_columns_inert`, `row_refs_generated`) with the implementation on sheets carrying the reserved reference
+    columns: accept / which element and attribute is refused / instance tree, bind nodesets, body refs; plus the oracle."""
+    r = impl.run(form)
+    m = flat_model_call(ctx, form, op="attrs.model")
+    ctx.count(f"attrs-impl:{r['class']}/model:{m['outcome']}")
+    for x in form["survey"]:
+        for c in x:
+            if "::" in c and c.replace("control::", "body::") in ("body::ref", "body::nodeset", "bind::nodeset", "action::ref"):
+                sec = x["type"].split()[-1] if x["type"].startswith("begin") else "question"
+                ctx.count(f"attrs-col:{c.replace('control::', 'body::')}@{sec}{'(flat)' if 'flat' in x else ''}")
+    if m["outcome"] == "unsupported":
+        ctx.count("attrs-unsupported: " + m.get("why", "?"))
+    if r["class"] == "internal":
+        if m["outcome"] != "unsupported":
+            ctx.fail(Failure("attrs-crash", f"{r.get('exc')} at {r.get('site')}: {r.get('msg', '')[:200]}", {"form": form}))
+    elif r["ok"]:
+        obs = formobs.observe(r["xform"])
+        oracle(ctx, form, obs)
+        if m["outcome"] == "ok":
+            if not m["closed"]:
+                ctx.mismatch("attrs: model output not closed", form, "-", m)
+            if not formobs.nt_eq(obs["instance"], m["instance"]):
+                ctx.mismatch("attrs: instance tree", form, formobs.nt_str(obs["instance"]), formobs.nt_str(m["instance"]))
+            if sorted(obs["binds"]) != sorted(m["binds"]):
+                ctx.mismatch("attrs: bind nodesets", form, obs["binds"], m["binds"])
+            if obs["body"] != m["body"]:
+                ctx.mismatch("attrs: body refs", form, obs["body"], m["body"])
+            attr_rows(ctx, form, r["xform"], m)
+        elif m["outcome"] == "attr":
+            ctx.mismatch("attrs: model refuses a user-supplied reference attribute, implementation accepts", form, "ok", m["err"])
+            ctx.fail(Failure("accepted-user-ref", f"a user-supplied reference attribute was accepted: {m['name']} {m['err']}",
+                             {"form": form}))
+        elif m["outcome"] == "error":
+            ctx.mismatch("attrs: model rejects, implementation accepts", form, "ok", m["err"])
+    elif r["class"] == "pyxform":
+        hit = ATTR_MSG.search(r["msg"])
+        if m["outcome"] == "ok":
+            ctx.mismatch("attrs: implementation rejects, model accepts", form, r["msg"][:300], "ok")
+        elif m["outcome"] == "attr":
+            got = {"dict": hit.group(1), "name": hit.group(2), "attr": hit.group(3)} if hit else None
+            want = [{"dict": o["err"]["dict"], "name": o["name"], "attr": o["err"]["attr"]} for o in m["offenders"]]
+            if got not in want:
+                ctx.mismatch("attrs: refused element / attribute", form, r["msg"][:300], want)
+        elif m["outcome"] == "error" and hit:
+            ctx.mismatch("attrs: implementation refuses an attribute, model has a structural error", form, r["msg"][:300], m["err"])
+    ctx.record({"form": form, "attrs": True}, r["ok"] and m["outcome"] == "ok")
+
+
+def attr_rows(ctx, form, xform, m):
+    """Element level (`emitQuestionCtl` / `emitGroup` / `emitRepeat`, op `attrs.row`): the attribute list of the body
+    element of each row that carries a reserved column equals the model's, for the path the model generated."""
+    from lxml import etree
+    names = [x.get("name") for x in form["survey"]]
+    root = etree.fromstring(xform.encode())
+    body = [el for el in root.iter() if isinstance(el.tag, str) and "ref" in el.attrib or "nodeset" in el.attrib]
+    lists = sorted({x.get("list_name", "") for x in form.get("choices", [])})
+    for x in form["survey"]:
+        if not any(c.replace("control::", "body::") in ("body::ref", "body::nodeset") for c in x):
+            continue
+        if names.count(x["name"]) != 1 or x["type"].startswith("select"):
+            continue
+        flat = x["type"].startswith("begin") and "flat" in x
+        if flat:
+            continue  # no ref on the element: nothing to find it by
+        paths = [p for p in m["body"] if p.rsplit("/", 1)[-1] == x["name"]]
+        if not paths:
+            continue
+        path = paths[0]
+        key = "nodeset" if x["type"].startswith("begin repeat") else "ref"
+        els = [el for el in body if formobs.local(el.tag) not in ("bind", "setvalue", "label", "hint", "output", "itemset")
+               and el.get(key) == path and (key == "nodeset" or formobs.local(el.tag) != "group" or not x["type"].startswith("begin repeat"))]
+        els = [el for el in els if el.getparent() is not None and formobs.local(el.getparent().tag) != "model"
+               and not any(formobs.local(a.tag) == "model" for a in el.iterancestors())]
+        if len(els) != 1:
+            ctx.count("attrs-row: element not identified")
+            continue
+        w = ctx.driver.call("attrs.row", row=formobs.canon_cells(x), lists=lists, path=path)
+        if w["outcome"] != "ok":
+            ctx.mismatch("attrs: row emission refused on an accepted sheet", form, "ok", w)
+            continue
+        want = [a for a in w["ctl"][-1] if a[0] in ("ref", "nodeset")]
+        got = [[k, v] for k, v in els[0].attrib.items() if k in ("ref", "nodeset")]
+        ctx.count("attrs-row: compared")
+        if sorted(got) != sorted(want):
+            ctx.mismatch("attrs: ref / nodeset attributes of the element", form, got, want)
+
+
 def explore(ctx, factor, bs):
     rng = ctx.rng
     form_case(ctx, FLAT_IN_REPEAT)  # directed case of the open finding C02-flat-group-in-repeat
@@ -310,6 +438,9 @@ def explore(ctx, factor, bs):
     # row-level `flat` groups: correspondence with the flat-aware model (`flat.model`) + oracle
     for _ in range(ctx.pick(400, 5000) * factor):
         flat_case(ctx, flat_form(rng, big=not ctx.quick()))
+    # user-supplied body::ref / body::nodeset / bind::nodeset / action::ref on questions, groups (flat and not), repeats
+    for _ in range(ctx.pick(400, 5000) * factor):
+        attr_case(ctx, attr_form(rng, big=not ctx.quick()))
     n = ctx.pick(1200, 30000) * factor
     for i in range(n):
         big = not ctx.quick()
@@ -345,6 +476,8 @@ def replay(ctx, payload, bs):
     form = payload["case"]["form"]
     if "include" in form:
         include_run(ctx, form["include"]["main"], form["include"]["address"])
+    elif payload["case"].get("attrs"):
+        attr_case(ctx, form)
     else:
         form_case(ctx, form)
         if any("flat" in x for x in form.get("survey", [])):
